@@ -88,6 +88,8 @@ def cases(rng, tier):
             out[-1]['mag'] = rng.choice([['all', -40], ['all', -30], ['all', -27], ['all', 24], ['v', -30], ['v', -34], ['t', -30]])
     # long lattices with genuinely complex 2x2 unitaries in every run: the blocks of the gauge matrices that are only
     # populated for pairs in the right half of a lattice with L >= 7 are complex-conjugated entries
+    for L in (4, 6):
+        out.append({'kind': 'gauge', 'L': L, 'seed': rng.getrandbits(30), 'dtype': 'real', 'struct': 'dense', 'utype': 'near-identity'})
     for L, ut, dt in {'quick': ((7, 'generic', 'complex'), (7, 'phase', 'real')), 'thorough': ((7, 'generic', 'complex'), (7, 'phase', 'real'), (8, 'generic', 'real'), (8, 'phase', 'complex')), 'search': ((7, 'generic', 'complex'),)}[tier]:
         out.append({'kind': 'gauge', 'L': L, 'seed': rng.getrandbits(30), 'dtype': dt, 'struct': 'dense', 'utype': ut})
     if tier != 'thorough':
@@ -158,6 +160,11 @@ def unitary(case):
         return np.diag(np.exp(1j * rs.uniform(0, 2 * np.pi, size=2)))
     if k == 'swap':
         return np.array([[0., 1.], [1., 0.]])
+    if k == 'near-identity':
+        # a unitary within 1e-5 of the identity (phases of order 1e-6, mixing angle 1e-9): still a rotation, not the identity
+        th = 1e-9 * (1 + rs.random()); ph = 1e-6 * (1 + rs.random(2))
+        c, s_ = np.cos(th), np.sin(th)
+        return np.diag(np.exp(1j * ph)) @ np.array([[c, -s_], [s_, c]])
     Z = rs.standard_normal((2, 2)) + 1j * rs.standard_normal((2, 2))
     Q, R = np.linalg.qr(Z)
     return Q * (np.diag(R) / np.abs(np.diag(R)))
